@@ -102,8 +102,18 @@ func httpDo(path string, body []byte, key *dsig.PrivateKey) (int, []byte) {
 // keyIdx < 0 means "no key". Returns success and a short description.
 func verifyVia(x *X, ep string, env *gobl.Envelope, keyIdx int, chunk int) (ok bool, detail string, panicked bool) {
 	var pub *dsig.PublicKey
-	if keyIdx >= 0 {
+	pubJSON := ""
+	switch {
+	case keyIdx >= 100:
+		// an impostor: other key material under the signer's key id
+		pubJSON = ImpostorPubJSON((keyIdx-100)/10, (keyIdx-100)%10)
+		pub = new(dsig.PublicKey)
+		if err := json.Unmarshal([]byte(pubJSON), pub); err != nil {
+			return false, "harness: " + err.Error(), false
+		}
+	case keyIdx >= 0:
 		pub = PubKey(keyIdx)
+		pubJSON = PubKeyJSON(keyIdx)
 	}
 	defer func() {
 		if r := recover(); r != nil {
@@ -142,7 +152,7 @@ func verifyVia(x *X, ep string, env *gobl.Envelope, keyIdx int, chunk int) (ok b
 	case epBulk:
 		pl := map[string]any{"data": data}
 		if pub != nil {
-			pl["publickey"] = json.RawMessage(PubKeyJSON(keyIdx))
+			pl["publickey"] = json.RawMessage(pubJSON)
 		}
 		res, err := bulkOne(x, map[string]any{"action": "verify", "req_id": "v", "payload": pl}, chunk, nil)
 		if err != nil {
@@ -155,7 +165,7 @@ func verifyVia(x *X, ep string, env *gobl.Envelope, keyIdx int, chunk int) (ok b
 	case epHTTP:
 		pl := map[string]any{"data": data}
 		if pub != nil {
-			pl["publickey"] = json.RawMessage(PubKeyJSON(keyIdx))
+			pl["publickey"] = json.RawMessage(pubJSON)
 		}
 		b, _ := json.Marshal(pl)
 		code, body := httpDo("/verify", b, nil)
@@ -163,7 +173,7 @@ func verifyVia(x *X, ep string, env *gobl.Envelope, keyIdx int, chunk int) (ok b
 	case epHTTPBulk:
 		pl := map[string]any{"data": data}
 		if pub != nil {
-			pl["publickey"] = json.RawMessage(PubKeyJSON(keyIdx))
+			pl["publickey"] = json.RawMessage(pubJSON)
 		}
 		b, _ := json.Marshal(map[string]any{"action": "verify", "req_id": "v", "payload": pl})
 		code, body := httpDo("/bulk", append(b, '\n'), nil)
@@ -182,7 +192,10 @@ func verifyVia(x *X, ep string, env *gobl.Envelope, keyIdx int, chunk int) (ok b
 	case epCobra:
 		dir := scratchDir()
 		keyFile := filepath.Join(dir, "nokey.pub.jwk")
-		if keyIdx >= 0 {
+		if keyIdx >= 100 {
+			keyFile = filepath.Join(dir, fmt.Sprintf("impostor%d.pub.jwk", keyIdx))
+			os.WriteFile(keyFile, []byte(pubJSON), 0o644)
+		} else if keyIdx >= 0 {
 			keyFile = filepath.Join(dir, fmt.Sprintf("key%d.pub.jwk", keyIdx))
 		}
 		out, errOut := NewSimWriter(x, "stdout"), NewSimWriter(x, "stderr")
